@@ -9,7 +9,7 @@ ID = 'C19'
 N = {'quick': 500, 'thorough': 12000}
 SEARCH_N = {'quick': 1200, 'thorough': 8000}
 SHARD = 63
-RULE = ('in-memory 1-D files: 1..30 records, 1..5 dependent variables with individually drawn missing codes, the independent variable at a random position of f.variables, doubles of magnitude 1e-300..1e300 (mostly 1e-30..1e30), '
+RULE = ('variables are i4 / i8 / f4 / f8 arrays (independent and dependent, mixed), non-integral and large dependent values next to an integer or float32 independent variable, int64 beyond 2^53; in-memory 1-D files: 1..30 records, 1..5 dependent variables with individually drawn missing codes, the independent variable at a random position of f.variables, doubles of magnitude 1e-300..1e300 (mostly 1e-30..1e30), '
         'negative, zero, integers; int and float missing codes (7-digit and longer); masked cells with fill = code or not; 0..8 header '
         'attributes in random order with values containing colons, leading blanks, empty strings, newlines (adversarial), LLOD/ULOD '
         'flags with or without values; unmasked values near each variable\'s missing code (code*(1 +- k e-6), code +- small offsets, tiny values for code 0, '
@@ -58,6 +58,33 @@ def _val(rng):
 
 def _hx(x):
     return float(x).hex()
+
+
+def _f4(x):
+    import struct
+    try:
+        return struct.unpack('<f', struct.pack('<f', x))[0]
+    except OverflowError:
+        return struct.unpack('<f', struct.pack('<f', 1e30 if x > 0 else -1e30))[0]
+
+
+def _cast(x, dt):
+    """the value a cell has once it is stored in an array of dtype dt"""
+    if dt == 'f8':
+        return float(x)
+    if dt == 'f4':
+        return _f4(float(x))
+    lim = 2 ** 31 - 1 if dt == 'i4' else 2 ** 53
+    return float(max(-lim, min(lim, int(round(x)))))
+
+
+def _cf(c):
+    """cell of a case -> float (cells are hex floats, or {'i': n} for int64 values beyond 2^53)"""
+    return float(c['i']) if isinstance(c, dict) else float.fromhex(c)
+
+
+def _cexact(c):
+    return Fraction(c['i']) if isinstance(c, dict) else Fraction(float.fromhex(c))
 
 
 def _code(c):
@@ -233,12 +260,35 @@ def gen(rng, n, tier):
             vs[rng.randint(1, len(vs) - 1)]['name'] += ' b'
         if kind == 'mal-unit-newline':
             vs[rng.randint(1, len(vs) - 1)]['units'] = 'a\nb'
+        # dtypes: independent and dependent variables are i4 / i8 / f4 / f8 arrays (cells and fills cast accordingly;
+        # a variable only gets a dtype in which its missing code is exactly representable)
+        if not kind.startswith('mal-'):
+            for j, v in enumerate(vs):
+                c = v['code']
+                cands = ['f8', 'f8', 'f8']
+                if c is None or _f4(float(c)) == float(c):
+                    cands += ['f4', 'f4']
+                if c is None or (float(c).is_integer() and abs(float(c)) < 2 ** 31):
+                    cands += ['i4', 'i8']
+                v['dt'] = rng.choice(cands)
+                v['cells'] = [_cast(x, v['dt']) for x in v['cells']]
+            if kind == 'valid-long' and rng.random() < 0.12:
+                # int64 beyond 2^53: '%.6e' goes through a double (known finding C19-int64-precision)
+                kind = 'int64-big'
+                j = rng.randint(1, ndep)
+                if vs[j]['code'] is None or (float(vs[j]['code']).is_integer() and abs(float(vs[j]['code'])) < 2 ** 31):
+                    vs[j]['dt'] = 'i8'
+                    vs[j]['cells'] = [_cast(x, 'i8') for x in vs[j]['cells']]
+                    q = rng.randrange(nrec)
+                    vs[j]['mask'][q] = False
+                    vs[j]['cells'][q] = rng.choice([1234566500000000001, -1234566500000000001, 9007199254740993, 2 ** 62 + 12345,
+                                                    1000000500000000001])
         # the independent variable is created at a random position of f.variables (first, middle, last)
         if len(vs) > 1 and rng.random() < 0.45:
             iv0 = vs.pop(0)
             vs.insert(rng.randint(1, len(vs)), iv0)
         for v in vs:
-            v['cells'] = [None if m else _hx(x) for x, m in zip(v['cells'], v['mask'])]
+            v['cells'] = [None if m else ({'i': x} if isinstance(x, int) else _hx(x)) for x, m in zip(v['cells'], v['mask'])]
             del v['mask']
             v['code'] = _code(v['code'])
             v['fill'] = _hx(v['fill']) if v['fill'] is not None else _hx(1e20)
@@ -305,10 +355,19 @@ def _build(case):
     for k, v in case['attrs']:
         setattr(f, k, v)
     for v in case['vars']:
-        data = np.array([0.0 if c is None else float.fromhex(c) for c in v['cells']], dtype='d')
+        dt = v.get('dt', 'f8')
+        if dt[0] == 'i':
+            data = np.array([0 if c is None else (c['i'] if isinstance(c, dict) else int(float.fromhex(c))) for c in v['cells']], dtype=dt)
+            fl = float.fromhex(v['fill'])
+            fill = int(fl) if abs(fl) < 2 ** 31 else -999
+        else:
+            data = np.array([0.0 if c is None else _cf(c) for c in v['cells']], dtype=dt)
+            fill = float.fromhex(v['fill'])
+            if dt == 'f4':
+                fill = _f4(fill)
         mask = np.array([c is None for c in v['cells']], dtype=bool)
-        arr = np.ma.MaskedArray(data, mask=mask, fill_value=float.fromhex(v['fill']))
-        var = f.variables[v['name']] = PseudoNetCDFMaskedVariable(f, v['name'], 'd', ('POINTS',), values=arr)
+        arr = np.ma.MaskedArray(data, mask=mask, fill_value=fill)
+        var = f.variables[v['name']] = PseudoNetCDFMaskedVariable(f, v['name'], np.dtype(dt).char, ('POINTS',), values=arr)
         if v['units'] is not None:
             var.units = v['units']
         co = _code_obj(v['code'])
@@ -433,7 +492,7 @@ def _var_term(v):
     co = _code_obj(v['code'])
     return '(Var %s %s %s %s [%s])' % (
         _s(v['name']), C.copt(v['units'], _s), C.copt(None if co is None else str(co), _s), _dhex(v['fill']),
-        '; '.join('None' if c is None else '(Some %s)' % _dhex(c) for c in v['cells']))
+        '; '.join('None' if c is None else '(Some %s)' % _dhex(_hx(_cf(c))) for c in v['cells']))
 
 
 def _pline_term(p):
@@ -483,13 +542,14 @@ def py_check(case, obs):
     if case['kind'].startswith('mal-'):
         return dict(s_ok=True)
     why = []
+    why_big = []
     ind = dict(case['attrs']).get('INDEPENDENT_VARIABLE')
     vs = case['vars']
     order = [v for v in vs if v['name'] == ind] + [v for v in vs if v['name'] != ind]
     for a_ in order:
         rc = _code_obj((order[1] if a_ is order[0] and len(order) > 1 else a_)['code'])
         rc = -999 if rc is None else rc
-        if any(x is not None and float.fromhex(x) == float(rc) for x in a_['cells']):
+        if any(x is not None and _cf(x) == float(rc) for x in a_['cells']):
             # an unmasked value equal to the code the text carries for it IS a missing value: outside the domain (in_quant)
             return dict(s_ok=True, why='unmasked value equals the missing code: outside the domain')
     if obs['wrote'] is None:
@@ -524,7 +584,7 @@ def py_check(case, obs):
                         if y == 'N':
                             why.append('nan')
                             break
-                        fx, fy = Fraction(float.fromhex(x)), _frac(y)
+                        fx, fy = _cexact(x), _frac(y)
                         if fx == 0:
                             ok = fy == 0
                         else:
@@ -535,7 +595,9 @@ def py_check(case, obs):
                             while Fraction(10) ** e > ax:
                                 e -= 1
                             ok = abs(fx - fy) <= Fraction(10) ** (e - 6) / 2
-                        if not ok:
+                        if not ok and isinstance(x, dict):
+                            why_big.append('int64 value %d of %s[%d] printed through a double: not equal to 7 digits' % (x['i'], a['name'], q))
+                        elif not ok:
                             why.append('value of %s[%d] not equal to 7 digits' % (a['name'], q))
                             break
         if obs['second'] == 'skip' or obs['second'] is None:
@@ -546,6 +608,8 @@ def py_check(case, obs):
                     why.append('second cycle changed %s' % a['name'])
             if len(rv) != len(obs['second']):
                 why.append('second cycle changed the variable list')
+    if not why and why_big:
+        return dict(s_ok=False, region=5, why='; '.join(why_big[:2]))
     return dict(s_ok=not why, region=0, why='; '.join(why[:4]))
 
 
@@ -556,7 +620,7 @@ def nontrivial(case, obs):
         for c in v['cells']:
             if c is None:
                 return True
-            x = float.fromhex(c)
+            x = _cf(c)
             if float('%.6e' % x) != x:
                 return True
     return False
